@@ -48,6 +48,7 @@ type scenario struct {
 	StopErr bool
 	Parent string        // live | pre | at:<offset>
 	Cause  bool          // the parent context is ended with a recorded cause (context.WithCancelCause)
+	Wide   bool          // long argument list: delay bounding (every departure from the default schedule costs one deviation)
 	POff   time.Duration
 	// parallelise
 	Outcomes []bool // per argument: true = error
@@ -583,6 +584,19 @@ func scenarios() []scenario {
 			out = append(out, scenario{Name: fmt.Sprintf("parallelise/%d/%s", n, name), Family: "parallelise", Outcomes: oc, Bound: b})
 		}
 	}
+	// long argument lists (every worker is a goroutine of its own): one failing invocation first / in the middle / last, or none;
+	// the default schedule only (one departure from it already means ~10^5 executions per list)
+	for _, n := range []int{127, 128, 129, 130, 200, 513} {
+		for _, failing := range []int{-1, 0, n / 2, n - 1} {
+			oc := make([]bool, n)
+			name := "none"
+			if failing >= 0 {
+				oc[failing] = true
+				name = fmt.Sprintf("E@%d", failing)
+			}
+			out = append(out, scenario{Name: fmt.Sprintf("parallelise/wide/%d/%s", n, name), Family: "parallelise", Outcomes: oc, Bound: 0, Wide: true})
+		}
+	}
 	// cancel store: 2 threads x 1..2 calls (3 threads in thorough)
 	var scripts []string
 	for _, a := range "RCL" {
@@ -623,7 +637,7 @@ func scenarios() []scenario {
 func toScenario(sc scenario) gosim.Scenario {
 	return gosim.Scenario{
 		Name: sc.Name,
-		Opts: gosim.Options{Bound: sc.Bound, Horizon: time.Second, MaxSteps: 2000, Drain: true},
+		Opts: gosim.Options{Bound: sc.Bound, Horizon: time.Second, MaxSteps: map[bool]int{false: 2000, true: 20000}[sc.Wide], Drain: true, DelayBound: sc.Wide},
 		Body: body(sc),
 		Outcome: func(r *gosim.Result) string {
 			if w, ok := r.User.(*world); ok {
